@@ -235,7 +235,22 @@ def run(ctx):
     # try/except around the sweep call in the timer callable
     fi = model.timer_fi()
     found = False
-    for node in ast.walk(fi.node):
+    # the Try may sit in the timer callable itself or in a helper it calls: look
+    # in every function that is on the stack when the sweep is called
+    cand_nodes = [fi.node]
+    for p0 in timer[:1]:
+        for e0, _ in all_events(p0, ("call",)):
+            if e0["callee"] == R.sweep_all:
+                for q in e0["stack"]:
+                    for f2 in ctx.repo.all_functions():
+                        if f2.qualname == q and f2.node not in cand_nodes:
+                            cand_nodes.append(f2.node)
+    try_nodes = []
+    for cn in cand_nodes:
+        for node in ast.walk(cn):
+            if isinstance(node, ast.Try) and node not in try_nodes:
+                try_nodes.append(node)
+    for node in try_nodes:
         if isinstance(node, ast.Try):
             calls = [n for b in node.body for n in ast.walk(b)
                      if isinstance(n, ast.Call) and isinstance(n.func, ast.Attribute)
@@ -278,7 +293,7 @@ def run(ctx):
     # R13.noraise
     e3 = e3mod.get(model)
     for f in e3.may_raise():
-        if any("prune" in s for s in f.event["stack"]):
+        if any(s in (R.sweep_all, R.sweep_app) for s in f.event["stack"]):
             ctx.ob("R13.noraise", "may-raise %s at %s" % (f.may_raise, f.construct), False,
                    f.site, f.detail + "; the sweep aborts at this app and never empties "
                    "the apps sorted after it", render_path(f.path.events) if f.path else None)
